@@ -7,6 +7,7 @@
 #include "../../sim/simkit.hpp"
 
 #include <array>
+#include <limits>
 #include <vector>
 
 #include "xtl/xoptional_sequence.hpp"
@@ -124,6 +125,7 @@ namespace
         default: r += a; m.first = static_cast<T>(m.first + a); break;
         }
     }
+#define SQ_PROXY_TO_PROXY 1
     template <size_t N> using Arr = xtl::xcomplex_array<T, N>;
     using Vec = xtl::xcomplex_vector<T>;
 #endif
@@ -401,6 +403,25 @@ namespace
             T a = val(st.b), b = val(st.c);
             bool f = st.b & 1;
             std::ptrdiff_t di = static_cast<std::ptrdiff_t>(i);
+            // proxies taken BEFORE the write and read after it: they are pairs of references, not snapshots
+            const C& cc0 = c;
+            auto held_const = cc0[i];
+            auto held_const_it = cc0.begin() + di;
+            auto held_mut = c[i];
+            auto held_at = cc0.at(i);
+#ifdef SQ_PROXY_TO_PROXY
+            if ((st.c >> 20) % 4 == 0 && m.size() >= 2)
+            {
+                // one element proxy assigned to another (same container, other position): the value travels, the source stays
+                size_t j = static_cast<size_t>((st.c >> 8) % m.size());
+                if ((st.c >> 6) & 1) c[i] = c[j]; else *(c.begin() + di) = *(c.begin() + static_cast<std::ptrdiff_t>(j));
+                m[i] = m[j];
+                SIM_PROBE("proxy_assigned_to_proxy");
+                ++run.changing;
+                check_all();
+                return;
+            }
+#endif
             switch (path)
             {
             case 0: write_ref(c[i], form, a, b, f, m[i]); break;
@@ -410,6 +431,12 @@ namespace
             case 4: write_ref(*(c.begin() + di), form, a, b, f, m[i]); break;
             case 5: write_ref(*(c.rbegin() + di), form, a, b, f, m[m.size() - 1 - i]); SIM_PROBE("write_through_reverse_iterator"); break;
             default: { auto it = c.begin() + di; write_ref(*(it.operator->()), form, a, b, f, m[i]); } break;
+            }
+            if (path != 2 && path != 3 && path != 5)
+            {
+                if (read_ref(held_const) != m[i] || read_ref(*held_const_it) != m[i] || read_ref(held_mut) != m[i] || read_ref(held_at) != m[i])
+                    viol("invariant", "held-proxy", "a proxy onto element " + std::to_string(i) + " obtained before the write reads " + show(read_ref(held_const)) + "/" + show(read_ref(held_mut)) + " after it, the element is " + show(m[i]));
+                SIM_PROBE("proxy_held_across_a_write");
             }
             ++run.changing;
             check_all();
@@ -473,11 +500,33 @@ namespace
                 if (v == 2) { e.first = static_cast<T>(e.first + 1); storage_set(b, i, 0, e.first, e.second); }
                 else { e.second = static_cast<Second>(SQ_FAMILY == 0 ? !e.second : e.second + 1); storage_set(b, i, 1, e.first, e.second); }
             }
+            special_values(a, b, t, s, st, std::is_floating_point<T>());
             bool want = model[t] == model[s];
             bool eq = a == b, ne = a != b;
             if (eq != want || ne == want) viol("model", "equality", std::string("operator== returned ") + (eq ? "true" : "false") + " for containers that " + (want ? "match" : "differ") + " (" + vn[v] + ")");
             if (want) SIM_PROBE("compared_equal"); else SIM_PROBE("compared_unequal");
             check_all();
+        }
+
+        // == compares elements with the element type's own ==: 0.0 equals -0.0, NaN equals nothing (not a byte comparison)
+        void special_values(C&, C&, int, int, const Step&, std::false_type) {}
+        template <class TT = T>
+        void special_values(C& a, C& b, int t, int s, const Step& st, std::true_type)
+        {
+            if (model[t].empty() || model[t].size() != model[s].size() || (st.c & 3) != 0) return;
+            // make both equal first, then plant special values in the first storage of element i
+            b = static_cast<const C&>(a); model[s] = model[t];
+            size_t i = static_cast<size_t>(st.a % model[t].size());
+            Elem keep = model[t][i];
+            bool nan_case = (st.c >> 2) & 1;
+            TT x = nan_case ? std::numeric_limits<TT>::quiet_NaN() : TT(0.0), y = nan_case ? x : -TT(0.0);
+            storage_set(a, i, 0, x, keep.second); storage_set(b, i, 0, y, keep.second);
+            bool want = !nan_case;     // "== holds exactly when sizes, values and flags all match": the storages are compared element by element with the element type's ==, whatever the flags say
+            bool eq = a == b, ne = a != b;
+            if (eq != want || ne == want)
+                viol("model", "equality", std::string("operator== returned ") + (eq ? "true" : "false") + " for containers that differ only in " + (nan_case ? "a NaN against the same NaN" : "0.0 against -0.0") + " at one element");
+            storage_set(a, i, 0, keep.first, keep.second); storage_set(b, i, 0, keep.first, keep.second);
+            SIM_PROBE("compared_special_floating_point_values");
         }
 
         void op_at(const Step& st)
